@@ -98,6 +98,13 @@ CLAIMED = {
         note='Outside: frames of more than one instruction, whole recordings and desynchronisation detection, CSimulator_exec_frame, recordings with several input blocks, the 65535 repeated-frame marker, 128K paging and contended playback, rzxinfo. '
              'Assumes memory[0] == 0xF3 (rzxplay passes 0 as previous PC to accept_interrupt) and that the instruction does not overwrite its own opcode bytes.',
         design='4 (C20)', technique=TECH + '; reference Z80 model + documented frame-boundary rules as oracle'),
+    'C03': dict(
+        text='The whole textual round trip on symbolic memory: for ~95 control files (the C01 corpus: every block/sub-block type, sublength lists with all bases, multipliers, loops, M directives, code fragments; plus annotated files with titles, D/R/N/E/M, '
+             'dots-only and blank comments, dot/colon continuation lines, header/footer blocks, @ directives incl. ignoreua) over a window of 6-14 symbolic bytes, the real CtlParser + SkoolWriter write a skool file, the real skool2ctl (SkoolParser + '
+             'ControlDirectiveComposer + CtlWriter, -b, and -k for the annotated files) turns that text into a control file, and the real CtlParser + SkoolWriter regenerate a skool file from it and the same memory. z3 decides that the two skool files '
+             'are equal line by line (same text; every number the same value in the same base; every character the same) and that a second trip gives the same control file.',
+        note='Bound: the corpus and the window size. Jump operands are concrete (referrer bookkeeping is keyed by address). Outside: skool files not produced by sna2skool, skool2ctl -h/-l, sna2skool -w, whole programs.',
+        design='4 (C03)', technique=TECH + '; symbolic numerals and characters through the real writers and parsers'),
     'C12': dict(
         text='Machine-code loader path without CLEAR: the real bin2tap.run (stack pre-fill arithmetic, _get_data_loader, _make_block) is executed for a binary of 1-8 symbolic bytes with symbolic ORG, START and STACK; the loader it emits is then '
              'executed from 23296 by the real Simulator closures over a memory holding the real 48K ROM, the jump to LD-BYTES (0x0556) is served by the real LoadTracer.fast_load with the emitted data block, and the ROM SA/LD-RET code runs to its final RET. '
